@@ -605,12 +605,23 @@ def j_c16(case, resps):
     TZ = g.T(mpl(Z))
     Tp = [g.T(mpl(p)) for p in pts]
     s = lin_scale(grp, Z, *pts)
+
+    def radius(Ts):
+        """the property's precondition: the set lies within a moderate geodesic radius"""
+        T0i = mp.inverse(Ts[0])
+        return max([max(abs(x) for x in g.log(T0i * T_)) for T_ in Ts[1:]] + [mpf(0)])
+    right_ok = radius([T_ * TZ for T_ in Tp]) <= 1.0      # conjugation by Z can spread the cloud
+    if radius(Tp) > 1.0:
+        return out
     k = 2 * n
     sq = math.sqrt(gen.EPS)
     for op in case["ops"]:
         res = []
         for j in range(4):
             v, e = parse(resps[k + j])
+            if j == 3 and not right_ok and (v is None or not fin(v)):
+                res.append(None)
+                continue
             if v is None or not fin(v):
                 out.append(V("C16", grp, op, "status", case["tags"], case["reqs"][k + j], "no finite result: %s" % resps[k + j][:60], float("inf"), 0))
                 res = None
@@ -648,7 +659,7 @@ def j_c16(case, resps):
         d = oracle.maxdiff(g.T(mpl(mleft)), TZ * Tm)
         if d > tolq * s:
             out.append(V("C16", grp, op, "left-equivariance", case["tags"], case["reqs"][k - 2], "avg(Z X_i) != Z avg(X_i)", d, tolq * s))
-        if op != "avg_w":
+        if op != "avg_w" and right_ok:
             d = oracle.maxdiff(g.T(mpl(mright)), Tm * TZ)
             if d > tolq * s:
                 out.append(V("C16", grp, op, "right-equivariance", case["tags"], case["reqs"][k - 1], "avg(X_i Z) != avg(X_i) Z", d, tolq * s))
